@@ -30,7 +30,7 @@ PROP = "C23"
 LEVEL = "model_checking"
 ENGINE = "bfs"
 RULE = ("BFS over histories of add_breakpoint / set_breakpoint / remove_breakpoints_by_address / remove_breakpoints_by_callback / run-or-continue "
-        "on four fixed programs x {python, gcc}; addresses: block starts, mid-block instructions (reached several times, inside two overlapping "
+        "on four fixed x86-32 programs and one mips32 branch/delay-slot program x {python, gcc}; addresses: block starts, mid-block instructions (reached several times, inside two overlapping "
         "translated blocks), a mid-instruction address, a never-reached address; callbacks: plain (two of them), self-removing, returning False; "
         "from cold, warm (fully translated), stopped-in-the-middle and one-breakpoint-already-removed seeds; a state is distinct by (registry, position in the trace, pending "
         "callbacks, translated block starts, forced splits)")
@@ -114,17 +114,38 @@ dead:
 """, [0, 1, 2, 3, 4, 5, 6, 7, 2, 3, 4, 5, 8], [5, 7, 8, 10],
                {"blk": (2, 0), "mid": (3, 0), "first": (0, 0), "midinstr": (4, 1), "never": (9, 0)}),
 }
+# a delay-slot architecture: branch + delay slot, a skipped instruction, the branch target, a mid-block instruction after it
+MIPS_PROGRAM = (["ADDIU T0, T0, 0x1", "BEQ ZERO, ZERO, 0xC", "ADDIU T1, T1, 0x2", "ADDIU T2, T2, 0x4", "ADDIU T3, T3, 0x8",
+                 "ADDIU T4, T4, 0x10", "JR RA", "NOP"],
+                [0, 1, 2, 4, 5, 6, 7], [1, 6],
+                {"first": (0, 0), "branch": (1, 0), "delayslot": (2, 0), "never": (3, 0), "blk": (4, 0), "mid": (5, 0)},
+                {"T0": 1, "T1": 2, "T2": 0, "T3": 8, "T4": 0x10})
 PROG_ORDER = ["loop", "jmpmid", "call", "straight"]
+MIPS = "mipsbranch"
 BACKENDS = ["python", "gcc"]
 KINDS = ["A", "B", "S", "F"]      # plain, second plain, self-removing, returning False
 
 ROLE_CLASS = {"mid": "mid-block", "mid2": "mid-block", "blk": "block-start", "first": "block-start", "after": "block-start",
-              "retaddr": "block-start", "midinstr": "mid-instruction", "never": "never-reached"}
+              "retaddr": "block-start", "midinstr": "mid-instruction", "never": "never-reached", "branch": "branch", "delayslot": "delay-slot"}
 _prog = {}
 _cfg = {"menu": "small"}
 
 
 def prog(name):
+    if name == MIPS and name not in _prog:
+        from miasm.analysis.machine import Machine
+        from miasm.core.locationdb import LocationDB
+        lines, idx, breakers, roles, final = MIPS_PROGRAM
+        m, loc_db = Machine("mips32l"), LocationDB()
+        code, offs = b"", []
+        for line in lines:
+            ins = m.mn.fromstring(line, loc_db, "l")
+            ins.offset = CODE + len(code)
+            offs.append(CODE + len(code))
+            code += m.mn.asm(ins)[0]
+        addrs = {r: offs[i] + d for r, (i, d) in roles.items()}
+        _prog[name] = {"arch": "mips32l", "code": code, "offs": offs, "trace": [offs[i] for i in idx], "addrs": addrs,
+                       "breakers": [offs[i] for i in breakers], "role_of": {v: k for k, v in addrs.items()}, "final": final}
     if name not in _prog:
         from mc import jitprog as jp
         src, idx, breakers, roles = PROGRAMS[name]
@@ -132,7 +153,7 @@ def prog(name):
         code, labels, offs = jitx.assemble_chained("x86_32", src, CODE)
         trace = [offs[i] for i in idx]
         addrs = {r: offs[i] + d for r, (i, d) in roles.items()}
-        _prog[name] = {"code": code, "offs": offs, "trace": trace, "addrs": addrs, "breakers": [offs[i] for i in breakers],
+        _prog[name] = {"arch": "x86_32", "code": code, "offs": offs, "trace": trace, "addrs": addrs, "breakers": [offs[i] for i in breakers],
                        "role_of": {v: k for k, v in addrs.items()}}
     return _prog[name]
 
@@ -142,7 +163,8 @@ def roles_for(name, quick):
     order = {"loop": ["mid", "blk", "never", "after", "midinstr", "mid2"],
              "jmpmid": ["mid", "blk", "midinstr", "first", "never"],
              "call": ["mid", "blk", "never", "retaddr", "midinstr"],
-             "straight": ["mid", "first", "midinstr", "mid2", "never"]}[name]
+             "straight": ["mid", "first", "midinstr", "mid2", "never"],
+             MIPS: ["mid", "delayslot", "branch", "blk", "never"]}[name]
     return order[:3] if quick else order[:5]
 
 
@@ -159,9 +181,15 @@ def make(seed):
     st = State()
     st.pname, st.backend, st.maxline = pname, backend, maxline
     st.P = P
-    jit = jitx.fresh("x86_32", backend, jit_maxline=maxline)
-    jp.setup(jit, P["code"], map_data=False)
-    st.sp0 = jit.cpu.ESP + 4
+    jit = jitx.fresh(P["arch"], backend, jit_maxline=maxline)
+    if P["arch"] == "x86_32":
+        jp.setup(jit, P["code"], map_data=False)
+        st.sp0 = jit.cpu.ESP + 4
+    else:
+        jit.vm.add_memory_page(CODE, 7, P["code"], "code")
+        jit.cpu.RA = END
+    st.dispatches = 0
+    st.runaway = False
     st.jit = jit
     st.reg = {}            # model registry: addr -> [kind]
     st.meta = {}           # (addr, kind) -> "add/set:cold/warm"
@@ -186,6 +214,10 @@ def make(seed):
 
     def exec_cb(j):
         st.log.append(("D", j.pc))
+        st.dispatches += 1
+        if st.dispatches > 300:          # no program of the alphabet needs more than ~20 dispatches per run
+            st.runaway = True
+            return False
         return True
     jit.exec_cb = exec_cb
     for ev in pre:
@@ -332,11 +364,14 @@ def _run(st):
     st.ended = False
     cont = st.phase == "stopped"
     st.runs += 1
+    st.dispatches = 0
     try:
         if cont:
             jit.continue_run()
         else:
-            if st.runs > 1:
+            if P["arch"] != "x86_32":
+                jit.cpu.RA = END
+            elif st.runs > 1:
                 jit.cpu.ESP = st.sp0
                 jit.push_uint32_t(END)
             jit.run(CODE)
@@ -347,6 +382,13 @@ def _run(st):
         st.broken = True
         return [("run:raises:%s:%s" % (type(raised).__name__, "continue" if cont else "start"),
                  "%s raised %r; registry %s" % ("continue_run()" if cont else "run()", raised, _fmt_reg(st)))]
+    if st.runaway:
+        st.broken = True
+        regd = "+".join(sorted({ROLE_CLASS.get(P["role_of"].get(a, "other"), "other") for a in st.reg})) or "-"
+        tail = [hex(pc) for kk, pc in st.log if kk == "D"][-4:]
+        return [("run-does-not-terminate:breakpoints-on:%s" % regd,
+                 "%s dispatched more than 300 times without reaching the END sentinel (last dispatches %s); %s" % (
+                     "continue_run()" if cont else "run()", tail, _ctx(st)))]
     log = list(st.log)
     # groups of callback invocations per dispatch
     groups = []
@@ -439,6 +481,14 @@ def _run(st):
                          a, "went on to the END sentinel" if st.ended else "stopped elsewhere", jit.pc, _ctx(st)))]
     else:
         st.phase, st.pos, st.pending = "idle", 0, []
+        if st.ended and st.runs == 1 and "final" in P:
+            got = {k: getattr(jit.cpu, k) for k in P["final"]}
+            if got != P["final"]:
+                st.broken = True
+                regd = "+".join(sorted({ROLE_CLASS.get(P["role_of"].get(a, "other"), "other") for a in st.reg})) or "-"
+                return [("breakpoint-changes-what-the-program-computes:breakpoints-on:%s" % regd,
+                         "the first complete run ends with %r, the program computes %r: an instruction reached by control flow was not executed; %s" % (
+                             got, P["final"], _ctx(st)))]
         if not st.ended:
             st.broken = True
             return [("run-stops-without-false-callback",
@@ -502,13 +552,15 @@ ALL_COMBOS = [(p, b) for p in PROG_ORDER for b in BACKENDS]
 # phase -> (menu, depth, [(program, backend, jit_maxline, seed kind)])
 PHASES = {
     "quick": ("small", 2, [(p, b, 50, k) for (p, b) in QUICK_COMBOS
-                           for k in ("cold", "self-removing registered", "warm", "stopped", "added then removed by address")]),
+                           for k in ("cold", "self-removing registered", "warm", "stopped", "added then removed by address")] +
+              [(MIPS, b, 50, "cold") for b in BACKENDS]),
     "deep": ("small", 3, [(p, b, 50, "cold") for (p, b) in ALL_COMBOS if p != "straight"]),
     "wide": ("wide", 2, [(p, b, 50, k) for (p, b) in ALL_COMBOS
                          for k in ("cold", "warm", "stopped with a callback pending", "added then removed by address",
                                    "added then removed by callback", "self-removed during a run")] +
              [(p, "python", 50, "self-removing registered") for p in PROG_ORDER] +
-             [(p, "python", 2, k) for p in PROG_ORDER for k in ("cold", "warm")]),
+             [(p, "python", 2, k) for p in PROG_ORDER for k in ("cold", "warm")] +
+             [(MIPS, b, ml, k) for b in BACKENDS for ml in (50, 2) for k in ("cold", "warm", "stopped")]),
 }
 TIER_PHASES = {"quick": ["quick"], "thorough": ["deep", "wide"]}
 
@@ -524,13 +576,23 @@ def seeds(phase):
 
 def _load():
     from mc import jitx
-    jitx.activate(["JitCore_x86"])
+    jitx.activate(["JitCore_x86", "JitCore_mips32"])
 
 
 def check_reference_traces():
     """The hand-written traces against a single-step run of the Python backend (harness sanity)."""
     from mc import jitx, jitprog as jp
     out = []
+    P = prog(MIPS)
+    jit = jitx.fresh("mips32l", "python")
+    jit.vm.add_memory_page(CODE, 7, P["code"], "code")
+    jit.cpu.RA = END
+    jit.add_breakpoint(END, lambda j: False)
+    jit.run(CODE)
+    got = {k: getattr(jit.cpu, k) for k in P["final"]}
+    if got != P["final"] or jit.pc != END:
+        out.append(("harness:reference-trace-mismatch:%s" % MIPS, "default-configuration run ends at %#x with %r, the hand-written trace gives %r" % (
+            jit.pc, got, P["final"])))
     for pname in PROG_ORDER:
         P = prog(pname)
         jit = jitx.fresh("x86_32", "python", jit_maxline=1, max_exec_per_call=1)
@@ -551,8 +613,8 @@ def _gcc_jobs(phases):
     for ph in phases:
         small = PHASES[ph][0] == "small"
         for pname, be, ml, kind in PHASES[ph][2]:
-            if be != "gcc" or (pname, small) in done:
-                continue
+            if be != "gcc" or (pname, small) in done or pname == MIPS:
+                continue                    # (the few mips32 blocks are compiled on demand)
             done.add((pname, small))
             P = prog(pname)
             offs = P["offs"]
@@ -625,8 +687,8 @@ def _run_check(ctx):
     total["seconds_precompile"] = round(t1 - t0, 1)
     total["seconds_explore"] = round(time.time() - t1, 1)
     total["bounds"] = {"phases": {ph: {"menu": PHASES[ph][0], "depth": PHASES[ph][1], "seeds": [list(x) for x in PHASES[ph][2]]} for ph in phases},
-                       "menus": {"small": {"address_roles": {p: roles_for(p, True) for p in PROG_ORDER}, "max_registered_callbacks": 2},
-                                 "wide": {"address_roles": {p: roles_for(p, False) for p in PROG_ORDER}, "max_registered_callbacks": 3}},
+                       "menus": {"small": {"address_roles": {p: roles_for(p, True) for p in PROG_ORDER + [MIPS]}, "max_registered_callbacks": 2},
+                                 "wide": {"address_roles": {p: roles_for(p, False) for p in PROG_ORDER + [MIPS]}, "max_registered_callbacks": 3}},
                        "max_runs": 3, "callback_kinds": KINDS, "seed_kinds": {k: [list(e) for e in v] for k, v in SEED_KINDS.items()}}
     return total
 
